@@ -141,6 +141,7 @@ def run(c):
         lines = []
         for fn in ('permute', 'x2', 'x3', 'x4'):
             for r in range(12): lines.append('asm.abi fn=%s r=%d data=%s' % (fn, r, hx(s)))
+        if i == 0: lines.append('asm.abi fn=free r=0 data=%s' % hx(s))
         p.case(lines, cost=3.0); c.distinct([('x86-64', i)])
     c.tv(p, 'rel', 'abi', max_cost=12.0)
     # the x86-64 masked-word / masked-permutation assembly in the share configurations that change
